@@ -196,7 +196,7 @@ func c10Enumerate(t *testing.T, part string, depth int, stride int) {
 	if stride > 1 {
 		kind = fmt.Sprintf("every %dth program of the enumeration of all programs", stride)
 	}
-	st := NewStats("C10", part, fmt.Sprintf(kind+" `find all P` (and, up to depth 2, `P 'b'` three subroutine-in-loop forms, and 396 guarded-recursion programs: 22 consuming first instructions incl. every class and its negation and whole line / word / file x 6 continuations x 3 contexts) with P from the nullable-material grammar (18 atoms incl. all anchors and their negations and a `not in` with a multi-byte item, 13 loop heads greedy/fewest/named incl. two with bounds of 2e9 and 2^63-1, or-pairs) to nesting depth %d x all %d texts of length 1..3 over {a,b,\\n}; oracle: VM instructions per Run <= %d (largest observed count reported); non-trivial = program contains a loop whose body is nullable; programs are distinct by construction", depth, len(c10Texts()), c10EnumBudget))
+	st := NewStats("C10", part, fmt.Sprintf(kind+" `find all P` (and, up to depth 2, `P 'b'` three subroutine-in-loop forms, 35 programs of two commands using one definition, and 396 guarded-recursion programs: 22 consuming first instructions incl. every class and its negation and whole line / word / file x 6 continuations x 3 contexts) with P from the nullable-material grammar (18 atoms incl. all anchors and their negations and a `not in` with a multi-byte item, 13 loop heads greedy/fewest/named incl. two with bounds of 2e9 and 2^63-1, or-pairs) to nesting depth %d x all %d texts of length 1..3 over {a,b,\\n}; oracle: VM instructions per Run <= %d (largest observed count reported); non-trivial = program contains a loop whose body is nullable; programs are distinct by construction", depth, len(c10Texts()), c10EnumBudget))
 	st.Exhaustive = stride == 1
 	defer st.Write()
 	texts := c10Texts()
@@ -255,6 +255,45 @@ func c10Enumerate(t *testing.T, part string, depth int, stride int) {
 			runProgram([]*Node{sub}, true)
 			runProgram([]*Node{sub, {K: KLit, S: "b"}}, true)
 			runProgram([]*Node{{K: KLoop, Min: 0, Max: -1, Body: &Node{K: KSeq, Kids: []*Node{sub}}}}, true)
+		}
+	}
+	// several commands that use the same definition (each command expands it again)
+	runSource := func(src string) {
+		idx++
+		if idx%stride != 0 || (idx/stride)%nshards != shardIdx {
+			return
+		}
+		st.NonTrivial(src, func() any { return map[string]any{"src": src, "texts": len(texts)} })
+		v, err, p := CompileSafe(src)
+		if p != nil {
+			Fail(t, Failure{Property: "C10", Kind: "terminates", What: src + ": Compile panicked: " + p.Sig(), Case: RunCase{Src: src, Text: "a"}, Sig: p.Sig()})
+		}
+		if err != nil {
+			t.Fatalf("HARNESS: %s: %s", src, firstLine(err.Error()))
+		}
+		for _, text := range texts {
+			c := RunCase{Src: src, Text: text}
+			SetInflight(func() string { return jsonStr(Failure{Property: "C10", Kind: "terminates", Case: c}) })
+			res := RunSafe(v, text, c10EnumBudget)
+			ClearInflight()
+			st.Eval()
+			if spin := spinning(res, text); spin != "" {
+				Fail(t, Failure{Property: "C10", Kind: "terminates", What: fmt.Sprintf("%s on %q: %s", src, text, spin), Case: c, Sig: "spin"})
+			}
+			if res.OverBudget {
+				Fail(t, Failure{Property: "C10", Kind: "terminates", What: fmt.Sprintf("%s on %q: Run executed more than %d VM instructions", src, text, c10EnumBudget), Case: c, Sig: "step-budget-exceeded"})
+			}
+			if res.Panic != nil {
+				Fail(t, Failure{Property: "C10", Kind: "terminates", What: fmt.Sprintf("%s on %q: Run panicked: %s", src, text, res.Panic.Sig()), Case: c, Sig: res.Panic.Sig()})
+			}
+		}
+	}
+	for _, def := range []string{"at least 1 'a'", "at least 0 ( maybe 'a' )", "'a' or line start", "maybe 'a' maybe 'b'", "at least 0 ( 'a' or word end ) fewest"} {
+		for _, cmds := range []string{
+			"find all d find all d", "find all d replace all d with 'N'", "replace all d with 'N' find all d", "find all d find all maybe 'b' d",
+			"find all d 'b' find all 'b' d d", "set e to pattern d 'b' find all e find all d e", "find all at least 0 d find all at least 0 ( d ) fewest 'b'",
+		} {
+			runSource("set d to pattern " + def + " " + cmds)
 		}
 	}
 	for i, b := range bodies {
